@@ -1,6 +1,5 @@
 import Glom.Model.C14
 import Glom.Generated.C14Facts
-import Glom.Generated.TFacts
 /-
   C14 environment: the decision shape of the wildcard code as read from /repo's AST on this run.
 -/
@@ -10,7 +9,10 @@ namespace Glom.C14
     the 'x'/'X' branch seeds `sofar` with the root, grows `nxt` while walking it, inserts the root in
     front, evaluates the remaining ops per child swallowing PathAccessError only, and breaks;
     `__stars__` counts both wildcards; `Path.from_text` maps `*` / `**`; `_apply_for_each` flattens
-    `layers - 1` times; and `_t_eval` dispatches 'x' / 'X' to that branch; the remainder of the path
+    `layers - 1` times; and `_t_eval` dispatches 'x' / 'X' to that branch (no earlier branch of the
+    dispatch chain takes them), `TType.__star__` / `__starstar__` record exactly these op characters;
+    `Path.from_text` maps `*` / `**` to them iff the module switch `PATH_STAR` is on and keeps them as
+    plain segments otherwise (`c14PathStarSwitch`); the remainder of the path
     evaluated on every child is rooted at T for T-rooted **and for S-rooted** paths (it continues
     from the child — rooted at S it would start again from the scope and ignore the child) -/
 def remainderAtT (root : String) : Bool :=
@@ -22,12 +24,12 @@ def factsOK : Bool :=
   Generated.c14ExtendChildrenCaught ==
     [("keys_get", ["UnregisteredTarget"]), ("iterate_lookup", ["UnregisteredTarget"]),
      ("iterate_run", ["Exception"]), ("get_item", ["Exception"]), ("keys_run", ["Exception"])] &&
-  Generated.c14SeqGuardTypes == seqGuard &&
+  -- (the order of the types in the `isinstance` guard is immaterial)
+  seqGuard.all (Generated.c14SeqGuardTypes.contains ·) && Generated.c14SeqGuardTypes.all (seqGuard.contains ·) &&
   Generated.c14StarBranchShape && Generated.c14RecursionCaught == ["PathAccessError"] &&
   Generated.c14StarsCountsBoth && Generated.c14FromTextMapsStars && Generated.c14ApplyForEachShape &&
-  (Generated.tDispatch.find? (·.1 == "x")).map (·.2.1) == some "star" &&
-  (Generated.tDispatch.find? (·.1 == "X")).map (·.2.1) == some "starstar" &&
-  (Generated.tRecorded.find? (·.1 == "__star__")).map (·.2) == some "x" &&
-  (Generated.tRecorded.find? (·.1 == "__starstar__")).map (·.2) == some "X"
+  Generated.c14PathStarSwitch &&
+  Generated.c14Dispatch == [("x", "star"), ("X", "starstar")] &&
+  Generated.c14Recorded == [("__star__", "x"), ("__starstar__", "X")]
 
 end Glom.C14
